@@ -13,8 +13,12 @@ Conventions
   `Transportation1d::check()` is `Err.invalid`; the integer division by
   `nbSinks()` in `balanceDemand` reports `Err.divByZero`.
 * the only unbounded loop (`while` in `Transportation1dSolver::push`) takes
-  `fuel`; running out reports `Err.outOfFuel`.  All other loops have natural
-  bounds and are structural.
+  `fuel`; running out reports `Err.outOfFuel`.  `push` passes
+  `loopFuel = 2 * nbSinks + events.size() + 3`, which is proved sufficient on
+  the whole domain (`Proofs/Transp1dTerm.lean`: each iteration either occupies
+  a new sink or strictly lowers `lastPosition` onto the next event), so
+  `outOfFuel` never happens.  All other loops have natural bounds and are
+  structural.
 * `std::priority_queue<pair<ll,ll>>` is a list sorted in descending
   (lexicographic) order, head = `top()`; equal pairs are indistinguishable.
 * `std::sort` on the distinct pairs `(position, index)` is an insertion sort
@@ -270,14 +274,17 @@ def getSlopeKeep (st : St) : Int × St :=
   let r := popAt st.lastPosition st.events
   (r.1, { st with events := if r.1 ≠ 0 then evInsert (st.lastPosition, r.1) r.2 else r.2 })
 
+/-- `events.empty() ? minPos : std::max(minPos, events.top().first)` -/
+def topOr (minPos : Int) : List Event → Int
+  | [] => minPos
+  | e :: _ => max minPos e.1
+
 def pushToLastSink (sv : Solver) (i : Nat) (st : St) : M St := do
   let a ← get sv.D (st.lastOcc + 1)
   let b ← get sv.S (i + 1)
   let minPos := max (a - b) 0
   let r := popAt st.lastPosition st.events
-  let lp := match r.2 with
-    | [] => minPos
-    | e :: _ => max minPos e.1
+  let lp := topOr minPos r.2
   pure { st with lastPosition := lp, events := emplacePos r.2 lp r.1 }
 
 def pushToNewSink (sv : Solver) (i : Nat) (st : St) : M St :=
@@ -303,21 +310,26 @@ def pushLoop (sv : Solver) (i : Nat) : Nat → St → M St
       pushLoop sv i fuel st'
     else pure st
 
-def push (sv : Solver) (fuel : Nat) (i : Nat) (st : St) : M St := do
+/-- fuel handed to the `while` of `push`: every iteration either increments `lastOccupiedSink`
+(at most `nbSinks` times, adding one event each time) or moves `lastPosition` strictly down onto
+the next event (or onto its lower bound, which ends the loop). -/
+def loopFuel (sv : Solver) (st : St) : Nat := 2 * sv.nbSinks + st.events.length + 3
+
+def push (sv : Solver) (i : Nat) (st : St) : M St := do
   let o ← updOpt sv i sv.nbSinks st.optSink
   let st1 ← pushNewSourceEvents sv i { st with optSink := o }
   let a ← get sv.D o
   let b ← get sv.S i
   let st2 ← pushNewSinkEvents sv i o { st1 with lastPosition := max st1.lastPosition (a - b) }
-  let st3 ← pushLoop sv i fuel st2
+  let st3 ← pushLoop sv i (loopFuel sv st2) st2
   pure { st3 with pRev := st3.lastPosition :: st3.pRev }
 
 /-- `for (i = 0; i < nbSources(); ++i) push(i)`, `cnt` sources left -/
-def pushAll (sv : Solver) (fuel : Nat) : Nat → Nat → St → M St
+def pushAll (sv : Solver) : Nat → Nat → St → M St
   | 0, _, st => pure st
   | cnt + 1, i, st => do
-    let st' ← push sv fuel i st
-    pushAll sv fuel cnt (i + 1) st'
+    let st' ← push sv i st
+    pushAll sv cnt (i + 1) st'
 
 def runMin (mx : Int) : List Int → Int
   | [] => mx
@@ -332,8 +344,8 @@ def flush (mx : Int) : List Int → List Int
 def lastD (sv : Solver) : M Int := get sv.D (sv.D.length - 1)
 
 /-- `run()`: returns the final `p` -/
-def run (sv : Solver) (fuel : Nat) : M (List Int) := do
-  let st ← pushAll sv fuel sv.nbSources 0 St.init
+def run (sv : Solver) : M (List Int) := do
+  let st ← pushAll sv sv.nbSources 0 St.init
   let p := st.pRev.reverse
   let td ← lastD sv
   let sn ← get sv.S p.length
@@ -405,19 +417,19 @@ def convertAssignmentBack (so : Sorter) (a : List Nat) (nbSources : Nat) : M (Li
 
 /-! ### Transportation1d::solve / assign -/
 
-def solve (fuel : Nat) (pb : Problem) : M Plan := do
+def solve (pb : Problem) : M Plan := do
   check pb
   let so ← mkSorter pb
   let sv ← convert so pb
-  let p ← run sv fuel
+  let p ← run sv
   let sol ← computeSolution sv p
   convertSolutionBack so sol
 
-def assign (fuel : Nat) (pb : Problem) : M (List Nat) := do
+def assign (pb : Problem) : M (List Nat) := do
   check pb
   let so ← mkSorter pb
   let sv ← convert so pb
-  let p ← run sv fuel
+  let p ← run sv
   let a ← computeAssignment sv p
   convertAssignmentBack so a pb.nbSources
 
